@@ -379,7 +379,7 @@ def main(tier="quick", seed=0):
             seen.add(k)
             pools.setdefault(len(c["d"][0][1]), []).append((c["d"], c["e"]))
     cfgs = c12_configs()
-    per_cfg = 160 if quick else 6000
+    per_cfg = 160 if quick else 2500
     jobs = []
     for ci, cfg in enumerate(cfgs):
         n_annot = 2 if cfg["task"] == "multi" else 1
@@ -396,6 +396,7 @@ def main(tier="quick", seed=0):
                 d, e = lst[int(j)]
                 ones_none = bool(_all_ones(d, e) and rng.rand() < 0.5)
                 jobs.append((ci, d, e, int(rng.randint(0, 4) + 10 * seed), bool(rng.rand() < 0.5), ones_none))
+    jobs = [jobs[int(j)] for j in rng.permutation(len(jobs))]   # spread slow estimators over the workers
     out = pmap(_pair_job, jobs)
     traces = []
     for tr, n in out:
